@@ -19,6 +19,18 @@
 (* rendering made afterwards, and the new grid / sizes; it is judged by the same sentence as  *)
 (* the first rendering, under the fit precondition of the NEW grid, and becomes the current   *)
 (* geometry (state variables grid, leaves, fits).                                             *)
+(*                                                                                            *)
+(* Structure steps.  Applications also change the tree by program, and the statement holds in *)
+(* the states reached that way: op focus (focus_position of a Pile / Columns / GridFlow /     *)
+(* Frame / ListBox at `path` set to child n: a leaf last drawn WITHOUT the focus is asked for *)
+(* its cursor before it was ever drawn with it), op lbfocus (the focus of a ListBox changed   *)
+(* through its walker, behind the list box's back), op lbvalign (set_focus_valign), op lbdel  *)
+(* / lbins (an item above the focus of a ListBox deleted / a copy of item x inserted: the     *)
+(* offset the list box stored is no longer the one it lays the list out with), op unfocus     *)
+(* (the whole tree drawn once without the focus).  After a structure step the state reached   *)
+(* is hit-tested like the fresh one: "press" events with after = number of steps made so far, *)
+(* each applied to a copy brought into that state by the same steps, judged against the grid  *)
+(* of that step (state variable nsteps ties a press to the geometry it was made on).          *)
 EXTENDS WidgetTreeOps, Json, IOUtils, TLC
 
 \* self-test of the geometry operators (evaluated by TLC at start-up)
@@ -29,10 +41,11 @@ ASSUME LET g == << <<0, 1, 1, 0>>, <<0, 1, 1, 2>> >> IN
          /\ ~PaintedFull(<< <<1, 0, 1>> >>, 1, 2, 1)           \* two cells but not one rectangle
 
 Traces == JsonDeserialize(IOEnv.TRACE_FILE)
-VARIABLES tid, l, ok, why, grid, leaves, fits
-vars == <<tid, l, ok, why, grid, leaves, fits>>
+VARIABLES tid, l, ok, why, grid, leaves, fits,
+          nsteps        \* the number of history steps behind the current geometry (0: the first rendering)
+vars == <<tid, l, ok, why, grid, leaves, fits, nsteps>>
 
-Init == tid \in 1..Len(Traces) /\ l = 0 /\ ok = TRUE /\ why = "-" /\ grid = <<>> /\ leaves = <<>> /\ fits = FALSE
+Init == tid \in 1..Len(Traces) /\ l = 0 /\ ok = TRUE /\ why = "-" /\ grid = <<>> /\ leaves = <<>> /\ fits = FALSE /\ nsteps = 0
 
 LeafOf(ls, id) == ls[CHOOSE i \in 1..Len(ls) : ls[i].id = id]
 IsLeafId(ls, id) == \E i \in 1..Len(ls) : ls[i].id = id
@@ -60,7 +73,8 @@ Target(col, row) == LET id == IdAt(grid, col, row) IN
 
 PressVerdict(e) ==
   LET p == Target(e.col, e.row) IN
-  IF ~fits \/ p = 0 THEN "-"
+  IF e.after # nsteps THEN "no_action"          \* a press is judged on the geometry it was made on
+  ELSE IF ~fits \/ p = 0 THEN "-"
   ELSE LET ox == OriginX(grid, p)  oy == OriginY(grid, p) IN
        IF e.exc # "" \/ ~(\E i \in 1..Len(e.recv) : e.recv[i][1] = p) \/ (\E i \in 1..Len(e.recv) : e.recv[i][1] # p)
          THEN "mouse_delivered_to_drawn_child_only"
@@ -93,11 +107,15 @@ MoveVerdict(e) ==
           ELSE IF e.ret = 1 /\ ~CursorInDrawnChild(e.gcc_after, lf.acur[e.row - oy + 1][e.col - ox + 1], ox, oy) THEN "cursor_in_child_drawn_at_cell"
           ELSE "-"
 
-StepOps == {"key", "setpos", "probecur"}
 StepKeys == {"left", "right", "up", "down", "home", "end", "x", "backspace", "delete"}
+StructOps == {"focus", "lbfocus", "lbvalign", "lbdel", "lbins", "unfocus"}
+StepOps == {"key", "setpos", "probecur"} \cup StructOps
+StepArgsOK(e) == /\ (e.op = "key") = (e.key \in StepKeys)
+                 /\ (e.op = "lbvalign") = (e.s \in {"top", "middle", "bottom"})
+                 /\ e.n >= 0 /\ e.x >= 0 /\ (e.op \notin StructOps => Len(e.path) = 0 /\ e.n = 0)
 \* a step of the history: whatever it did, the cursor reported before the next rendering is the cursor of that rendering
 StepVerdict(e) ==
-  IF e.op \notin StepOps \/ (e.op = "key") # (e.key \in StepKeys) THEN "no_action"
+  IF e.op \notin StepOps \/ ~StepArgsOK(e) THEN "no_action"
   ELSE IF ~Fits(e.grid, e.leaves, e.nodes) THEN "-"
   ELSE IF e.exc # "" \/ ~SameCursor(e.gcc, e.rcur) THEN "cursor_coords_equal_render_cursor"
   ELSE "-"
@@ -114,6 +132,8 @@ Step == /\ ok /\ l < Len(Traces[tid].ev) /\ l' = l + 1 /\ tid' = tid
            IN /\ why' = v /\ ok' = (v = "-")
               /\ IF e.t \in {"render", "step"} THEN grid' = e.grid /\ leaves' = e.leaves /\ fits' = Fits(e.grid, e.leaves, e.nodes)
                  ELSE UNCHANGED <<grid, leaves, fits>>
+              \* a "render" event names the steps behind it (0; a continuation after a known finding starts at a later geometry)
+              /\ nsteps' = (CASE e.t = "render" -> e.steps [] e.t = "step" -> nsteps + 1 [] OTHER -> nsteps)
 Spec == Init /\ [][Step]_vars
 Report == ok \/ PrintT(<<"REJECT", tid, l, why>>)
 ===============================================================================
